@@ -9,7 +9,7 @@ from ..trace import check_span_tree
 
 ID = "C12"
 LEVEL = "exploration"
-BUDGET = {"quick": 1600, "thorough": 40000}
+BUDGET = {"quick": 3200, "thorough": 40000}
 SHARDS = {"quick": 8, "thorough": 16}
 RULE = (
     "Hypothesis-generated programs: DAGs flat / with an interval nested to depth 1-3 / with 2-3 sibling nested graphs, control-flow "
